@@ -157,7 +157,7 @@ end function tcount"""),
 # statement templates
 # ---------------------------------------------------------------------------
 # (key, flags, text).  flags: c = core (used in pairs of the quick tier),
-# k = mini core (triples), s = also generated with host s, S = host s only,
+# k = mini core (triples), p = probe (paired with every template, thorough), s = also generated with host s, S = host s only,
 # text with {BODY} = container; {I} = loop variable of a container (i, or io when
 # something is nested inside); {L} = unique label base; {N} = unique name suffix.
 _T = []
@@ -168,10 +168,10 @@ def _t(key, flags, text):
 
 
 # ---- DO -------------------------------------------------------------------
-_t("do.up", "ck", "do {I} = 1, n\n  k = k + {I}\n{BODY}\nend do")
+_t("do.up", "ckp", "do {I} = 1, n\n  k = k + {I}\n{BODY}\nend do")
 _t("do.lit", "", "do {I} = 1, 3\n  k = k + {I}\n{BODY}\nend do")
 _t("do.step1", "", "do {I} = 1, n, 1\n  k = k * 2 + {I}\n{BODY}\nend do")
-_t("do.dn", "ck", "do {I} = n, 1, -1\n  k = k * 2 + {I}\n{BODY}\nend do")
+_t("do.dn", "c", "do {I} = n, 1, -1\n  k = k * 2 + {I}\n{BODY}\nend do")
 _t("do.dnlit", "", "do {I} = 3, 1, -1\n  k = k * 2 + {I}\n{BODY}\nend do")
 _t("do.step2", "", "do {I} = 0, n, 2\n  k = k * 2 + {I}\n{BODY}\nend do")
 _t("do.stepm2", "", "do {I} = 3, 0, -2\n  k = k * 2 + {I}\n{BODY}\nend do")
@@ -215,7 +215,7 @@ _t("if.oldops", "", "if (isel .lt. 1) k = k + 1\nif (isel .ge. 2 .and. isel .ne.
 _t("if.empty", "", "if (l) then\nend if\nif (isel > 1) then\nelse\n  k = k + 1\nend if")
 
 # ---- SELECT CASE ----------------------------------------------------------
-_t("sel.single", "ck", "select case (isel)\ncase (0)\n  k = 10\n{BODY}\ncase (1)\n  k = 11\ncase default\n  k = 12\nend select")
+_t("sel.single", "ckp", "select case (isel)\ncase (0)\n  k = 10\n{BODY}\ncase (1)\n  k = 11\ncase default\n  k = 12\nend select")
 _t("sel.nodefault", "", "select case (isel)\ncase (0)\n  k = 10\n{BODY}\ncase (2)\n  k = 11\nend select")
 _t("sel.list", "", "select case (isel)\ncase (0, 2, 4)\n  k = 10\n{BODY}\ncase (1)\n  k = 11\ncase default\n  k = 12\nend select")
 _t("sel.range", "", "select case (isel)\ncase (1:3)\n  k = 10\n{BODY}\ncase default\n  k = 12\nend select")
@@ -243,7 +243,7 @@ _t("sel.nested", "", "select case (isel)\ncase (0:2)\n  select case (n)\n  case 
 _t("sel.real", "", "select case (int(x))\ncase (1)\n  k = 10\ncase (2:3)\n  k = 11\ncase default\n  k = 12\nend select")
 
 # ---- WHERE ----------------------------------------------------------------
-_t("where.stmt", "cks", "where (a(:) > 0.0) a(:) = 0.0")
+_t("where.stmt", "cksp", "where (a(:) > 0.0) a(:) = 0.0")
 _t("where.stmtlb", "cs", "where (a(:) > 0.0) b(:) = a(:)")
 _t("where.stmtlb2", "s", "where (b(:) > 0.0) a(:) = b(:) * 2.0")
 _t("where.cons", "s", "where (a(:) > 0.0)\n  a(:) = a(:) * 2.0\nend where")
@@ -252,14 +252,14 @@ _t("where.else", "cs", "where (a(:) > 0.0)\n  a(:) = a(:) * 2.0\nelsewhere\n  a(
 _t("where.melse", "s", "where (a(:) > 1.0)\n  b(:) = 1.0\nelsewhere (a(:) < 0.0)\n  b(:) = 2.0\nend where")
 _t("where.melse2", "s", "where (a(:) > 1.0)\n  b(:) = 1.0\nelsewhere (a(:) < 0.0)\n  b(:) = 2.0\nelsewhere\n  b(:) = a(:)\nend where")
 _t("where.melse3", "s", "where (a(:) > 2.0)\n  b(:) = 1.0\nelsewhere (a(:) > 1.0)\n  b(:) = 2.0\nelsewhere (b(:) > 0.0)\n  b(:) = 3.0\nelsewhere\n  b(:) = 4.0\nend where")
-_t("where.modmask", "s", "where (a(:) > 0.0)\n  a(:) = 0.0 - 1.0\n  b(:) = a(:)\nelsewhere\n  a(:) = 5.0\n  b(:) = a(:) + 1.0\nend where")
+_t("where.modmask", "cs", "where (a(:) > 0.0)\n  a(:) = 0.0 - 1.0\n  b(:) = a(:)\nelsewhere\n  a(:) = 5.0\n  b(:) = a(:) + 1.0\nend where")
 _t("where.modmask2", "s", "where (a(:) > 1.0)\n  a(:) = 0.0 - 1.0\nelsewhere (a(:) < 0.0)\n  a(:) = 7.0\nelsewhere\n  a(:) = a(:) + 0.5\nend where")
 _t("where.section", "s", "where (c(2:4) > 0.0) a(:) = c(2:4)")
 _t("where.section2", "s", "where (a(1:2) > 0.0) b(0:1) = a(2:3)")
 _t("where.section3", "s", "where (a(:) > 0.0) a(:) = c(3:5)")
 _t("where.sectionopen", "s", "where (a(2:) > 0.0) a(2:) = b(:1)")
 _t("where.rev", "s", "where (a(:) > 0.0) a(:) = a(3:1:-1)")
-_t("where.elem", "cs", "where (a(:) > 0.0) a(:) = a(:) + a(1)")
+_t("where.elem", "s", "where (a(:) > 0.0) a(:) = a(:) + a(1)")
 _t("where.elemmask", "s", "where (a(:) >= a(1)) a(:) = a(:) - 4.0")
 _t("where.elemlast", "s", "where (b(:) > 0.0) b(:) = b(:) + a(3)")
 _t("where.elemmelse", "s", "where (a(:) > 1.0)\n  a(:) = 0.0\nelsewhere (a(:) < a(1))\n  a(:) = 9.0\nend where")
@@ -352,7 +352,7 @@ _t("int.maxval", "s", "x = maxval(a)\ny = minval(b(:))\nk = maxval(ia)")
 _t("int.maxvalmask", "s", "x = maxval(a, mask=la)\ny = minval(a, dim=1)\nk = minval(ia, 1, ia > 0)")
 _t("int.maxvaldim", "s", "a(:) = maxval(m2, dim=2)\nb(0:1) = minval(m3, 1)")
 _t("int.product", "s", "k = product(ia)\nx = product(a, mask=a > 0.0)")
-_t("int.size", "cks", "k = size(a)\nj = size(b, 1)\ni = size(m2, dim=2)")
+_t("int.size", "cs", "k = size(a)\nj = size(b, 1)\ni = size(m2, dim=2)")
 _t("int.size2", "s", "k = size(m2)\nj = size(c(3:4))\ni = size(m3, 1) * 10 + size(m3, 2)")
 _t("int.lbound", "s", "k = lbound(b, 1)\nj = ubound(c, dim=1)\ni = lbound(a, 1)")
 _t("int.lbound2", "s", "k = lbound(m3, 1) * 10 + lbound(m3, 2)\nj = ubound(m3, dim=1) * 10 + ubound(m2, 2)")
@@ -377,7 +377,7 @@ _t("int.bits", "", "k = iand(isel + 8, 6)\nj = ior(n, 4)\ni = ishft(n, 2)")
 _t("int.vsize", "S", "vv(:) = 0.5\nk = size(vv)\nj = ubound(vv, 1)\ni = lbound(vv, dim=1)")
 
 # ---- scalar expressions ---------------------------------------------------
-_t("expr.sub", "ck", "x = x - (y - 1.0)\nk = isel - (n - k)")
+_t("expr.sub", "c", "x = x - (y - 1.0)\nk = isel - (n - k)")
 _t("expr.subl", "", "x = (x - y) - 1.0\nk = isel - n - k")
 _t("expr.mul", "", "k = (isel + n) * k\nj = isel + n * k")
 _t("expr.div", "", "k = isel / 2 * 2\nj = isel / (2 * 2)\ni = isel * 2 / 4")
@@ -403,7 +403,7 @@ _t("expr.arrelem", "s", "x = a(1) + b(0) * c(2)\na(2) = a(3) - (a(1) - b(2))\nia
 _t("expr.struct", "", "s%r = s%r + x\ns%i = s%i + isel\nx = s%v(2) * s%r")
 
 # ---- calls ----------------------------------------------------------------
-_t("call.pos", "ck", "call tsub(x, y)")
+_t("call.pos", "ckp", "call tsub(x, y)")
 _t("call.named", "", "call tsub(x, q=y)")
 _t("call.reorder", "c", "call tsub(q=y, p=x)")
 _t("call.opt", "", "call tsub(x, y, k)\ncall tsub(x, y, t=2.0)")
@@ -422,7 +422,7 @@ _t("call.struct", "", "call tsub(s%r, s%v(2), s%i)")
 _t("call.intrsub", "", "call random_seed()\nk = k + 1")
 
 # ---- statements kept verbatim (CodeBlocks) -------------------------------
-_t("cb.print", "ck", "print *, 'P', k, isel")
+_t("cb.print", "ckp", "print *, 'P', k, isel")
 _t("cb.printfmt", "", "print '(a,i4)', 'P', isel")
 _t("cb.write", "", "write (*, *) 'W', isel, x")
 _t("cb.writefmt", "", "write (*, '(a,f8.3,i3)') 'W', x, isel")
@@ -707,18 +707,19 @@ def statement_specs(tier):
             out.append(("s2core", {"host": "m", "items": [[one, None], [two, None]]}))
     if tier == "thorough":
         seen = {prog_key(s) for _c, s in out}
-        # all containers x all templates
-        for outer in conts:
+        probe = _flag("p")
+        # mini-core containers x every template
+        for outer in [k for k in mini if TEMPLATES[k]["container"]]:
             for inner in ORDER:
                 if _nestable(outer, inner):
                     spec = {"host": "m", "items": [[outer, inner]]}
                     if prog_key(spec) not in seen:
                         seen.add(prog_key(spec))
                         out.append(("n2all", spec))
-        # pairs with at least one core member (both orders), host m
+        # pairs with a probe member (both orders), host m
         for one in ORDER:
             for two in ORDER:
-                if (one in core or two in core) and \
+                if (one in probe or two in probe) and \
                         "S" not in TEMPLATES[one]["flags"] + TEMPLATES[two]["flags"]:
                     spec = {"host": "m", "items": [[one, None], [two, None]]}
                     if prog_key(spec) not in seen:
@@ -1004,6 +1005,13 @@ _f("main.wild", slot="main", post="""program dprog
   print *, pa
 end program dprog""")
 
+#: features that interact through the symbol tables (used for sets of three)
+DECL_CORE = ["acc.private", "acc.public", "acc.attr", "par.chain", "par.multi",
+             "par.reverse", "par.routine", "kind.wp", "kind.used", "type.basic",
+             "type.nested", "type.extends", "iface.generic", "iface.operator",
+             "use.only", "use.rename", "use.wild", "use.wildrename",
+             "use.routine", "use.both", "use.type", "save.attr", "common",
+             "clash.widx", "clash.cmp", "arr.decls", "main", "main.wild"]
 DECL_FEATURES = {f["key"]: f for f in _F}
 DECL_ORDER = [f["key"] for f in _F]
 
@@ -1075,7 +1083,8 @@ def decl_specs(tier):
             if _compatible(pair):
                 for snip in snip_names:
                     out.append(("d2s", pair, (snip,)))
-        for trio in itertools.combinations(DECL_ORDER, 3):
+        core = [f for f in DECL_ORDER if f in DECL_CORE]
+        for trio in itertools.combinations(core, 3):
             if _compatible(trio):
                 out.append(("d3", trio, ()))
     return out
